@@ -9,42 +9,14 @@ ASSUMPTIONS = ["special soundness: equal responses under two challenges give equ
 DEVS = [
     {"dev": {"k": "eq_independent_nonces"}},
     {"dev": {"k": "eq_copy_response"}},
+    {"dev": {"k": "eq_unequal_shared_nonce"}},
     {"dev": {"k": "omit_pred"}, "target": "e0"},
     {"dev": {"k": "variant_under_sig", "variant": "eq"}, "target": "s1"},
     {"dev": {"k": "disc_pad_oob_first"}, "need_disclosed": 1, "target": "s1"},
 ]
-SHAPES = [dict(n_creds=2, eq=True), dict(n_creds=3, eq=True), dict(n_creds=2, eq=True, comm=True), dict(n_creds=3, eq=True, n_claims=4)]
-
-
-def unequal(s, rng_val="h:Mallory"):
-    # make the LAST credential's referenced value differ
-    s["creds"][-1]["claims"][1] = rng_val if s["creds"][0]["claims"][1][:2] == "h:" else "n:99"
-    return s
+SHAPES = [dict(n_creds=2, eq=True), dict(n_creds=3, eq=True), dict(n_creds=2, eq=True, comm=True), dict(n_creds=3, eq=True, n_claims=4), dict(n_creds=4, eq=True, n_claims=3)]
 
 
 def explore(ctx):
-    import random
-    base = K.scenarios_for
-
-    def scen(pid, devs, rng, tier, shapes):
-        out = base(pid, devs, rng, tier, shapes)
-        extra = []
-        for s in out:
-            if s["dev"]["k"] in ("eq_independent_nonces", "eq_copy_response"):
-                unequal(s)
-            # honest prover with unequal values: shared nonce, different secrets -> responses differ -> must be rejected
-        for suite in ("bbs", "ps"):
-            for shape in shapes:
-                s = PC.base_scenario(rng, suite, **shape)
-                unequal(s)
-                s["dev"] = {"k": "eq_independent_nonces", "stmt": "s0", "note": "unequal values, shared nonce"}
-                s["dev"]["k"] = "eq_unequal_shared_nonce"
-                extra.append(s)
-        return out + extra
-    K.scenarios_for = scen
-    PC.MUST_REJECT["eq_unequal_shared_nonce"] = "C09"
-    try:
-        return K.explore_generic("C09", ctx, DEVS, SHAPES, {"C09"},
-                                 "(2..3 credentials of one or several issuers; unequal values with the honest shared nonce, with independent nonces, with the first credential's nonce and value copied into the other proof's response slot; equality proof omitted; signature proof of a referenced statement replaced; disclosed-index padding on a referenced statement)")
-    finally:
-        K.scenarios_for = base
+    return K.explore_generic("C09", ctx, DEVS, SHAPES, {"C09"},
+                             "(2..4 credentials of one or several issuers; unequal values with the honest shared nonce, with independent nonces, with the first credential's nonce and value copied into the other proof's response slot; equality proof omitted; signature proof of a referenced statement replaced; disclosed-index padding on a referenced statement)")
